@@ -1042,7 +1042,7 @@ class C06(Prop):
                           "and one handler arrival; distinct by (streams, steps, handlers)")
         real_max = self.real_max
         g = ScnGen(ctx.rng, real_max)
-        n = ctx.scale(1400, 16000)
+        n = ctx.scale(3000, 40000)
         batch = 700
         done = 0
         while done < n:
